@@ -82,6 +82,10 @@ def parse_tagged(stdout: str, tag: str) -> list:
 def coverage_zero_actions(stdout: str) -> list[str]:
     """Action names with zero distinct states in a -coverage run."""
     bad = []
+    # TLC prints interim coverage reports on long runs; only the final one is complete
+    k = stdout.rfind("The coverage statistics at")
+    if k >= 0:
+        stdout = stdout[k:]
     for m in re.finditer(r"<(\w+) line \d+, col \d+ to line \d+, col \d+ of module (\w+)>: (\d+):(\d+)", stdout):
         if int(m.group(4)) == 0 and m.group(1) != "Init":
             bad.append(m.group(1))
